@@ -162,15 +162,11 @@ _C11 = [
             mod="encoder"),
     Harness("c11_cow_values", ["C11"], "MessageWrapper::{new_from_slice,encode}",
             "Cow values: Borrowed goes through append_borrow, Owned through append_copy; same layout and round trip",
-            kind="bounded", bound="at most {KR} pairs, values of at most {VL} bytes", covers=1, timeout=1500, mod="encoder",
-            mem_gb=48),
+            kind="bounded", bound="at most {KC} pairs, values of at most {VL} bytes (CBMC runs out of memory with 2 Cow pairs)", covers=1, timeout=1500, mod="encoder",
+            mem_gb=32),
     Harness("c11_new_from_sorted", ["C11"], "MessageWrapper::new_from_sorted",
             "rejects exactly the lists whose tags decrease somewhere; accepted lists encode in the given order",
             kind="bounded", bound=_C11_BOUND, covers=2, timeout=1500, mod="encoder"),
-    Harness("c11_nested_message", ["C11"], "MessageWrapper as ToRoughTLV",
-            "a value that is itself a message: lengths add up, the outer view yields bytes that the inner view decodes to the "
-            "inner pair", kind="bounded", bound="one level of nesting, one pair each, value <= {VL} bytes", timeout=1500,
-            mod="encoder", tiers=("thorough",)),
     Harness("c11_length_limits_full_domain", ["C11"], "MessageWrapper::compute_len",
             "for value lengths over the FULL usize domain: Err <=> some length > i32::MAX or (header + sum of lengths, computed "
             "without saturation) > i32::MAX; Ok(l) => l is the exact total", kind="bounded",
@@ -182,8 +178,8 @@ ROUGH_TLV = KaniUnit(
     crate="rough_tlv",
     attachments=[("rough_tlv/src/decoder.rs", os.path.join(KC, "rough_tlv_decoder.rs"), "decoder"),
                  ("rough_tlv/src/encoder.rs", os.path.join(KC, "rough_tlv_encoder.rs"), "encoder")],
-    params={"quick": {"L": 20, "U": 6, "LW": 88, "UW": 24, "K": 2, "KR": 1, "VL": 1, "U11": 8, "NE": 10, "UE": 24},
-            "thorough": {"L": 24, "U": 7, "LW": 136, "UW": 36, "K": 3, "KR": 2, "VL": 2, "U11": 12, "NE": 19, "UE": 42}},
+    params={"quick": {"L": 20, "U": 6, "LW": 88, "UW": 24, "K": 2, "KR": 1, "KC": 1, "VL": 1, "U11": 8, "NE": 10, "UE": 24},
+            "thorough": {"L": 24, "U": 7, "LW": 136, "UW": 36, "K": 3, "KR": 2, "KC": 1, "VL": 2, "U11": 12, "NE": 19, "UE": 42}},
     harnesses=_C11 + [
         Harness("c12_new_accepts_exactly", ["C12"], "MessageView::new",
                 "never panics; Ok <=> >= 4 bytes /\\ 8N <= len /\\ offsets non-decreasing /\\ tags non-decreasing "
@@ -273,6 +269,10 @@ NATIVE_UNITS = {
                     "swapped tie blocks) x 3 value-length patterns (values 0..5 bytes)"),
          NativeTest("verif_native_layout_random_lists", ["C11"], "MessageWrapper::new",
                     "as above, on LCG-drawn lists with 1..5 tag classes", "{NR} lists of 0..={NP} pairs, fixed seed"),
+         NativeTest("verif_native_nested_messages", ["C11"], "MessageWrapper as ToRoughTLV",
+                    "values that are themselves messages: the outer layout carries the inner message's bytes as a value of length "
+                    "rough_tlv_len; outer and inner views decode to the same pairs (the Kani harness for this case runs out of memory)",
+                    "inner lists of 0..=6 pairs x outer lists of 1..=5 messages x 4 tag patterns"),
          NativeTest("verif_native_headers_with_many_pairs", ["C12"], "MessageView::new",
                     "same triple as the c12_* harnesses on headers with many pairs: never panics; Ok <=> the format's acceptance rule; "
                     "values tile the bytes after the header; indexing, iteration and the tag array agree; indices >= N yield nothing; "
